@@ -8,10 +8,17 @@
 (* commits several times).                                                 *)
 (*                                                                         *)
 (* The reference store is the set of committed records ranked by           *)
-(* (timestamp, blob id, offset).  A read started when the reference answer *)
-(* was r0 may return r0 or any reference answer produced by a later commit *)
-(* on its key before it responds: "never older than everything             *)
-(* acknowledged before it started, never a value that was not written".    *)
+(* (timestamp, blob id, offset).  A completed read must be explained as    *)
+(* the property states it: the record it returns was committed for that    *)
+(* key before the read responded ("never a value that was not written")    *)
+(* and does not rank below the first-ranked record among the writes and    *)
+(* deletes acknowledged before the read was invoked ("never older than     *)
+(* all writes acknowledged before it started"); NotFound only if nothing   *)
+(* had been acknowledged for the key.  This is deliberately the property's *)
+(* own criterion and not strict linearizability: a read visits the active *)
+(* blob and then the closed blobs without a common snapshot, and a run was *)
+(* observed (DESIGN 10.5) whose answer is no single-point answer although  *)
+(* it satisfies both clauses.                                              *)
 (* An acknowledged write must have committed exactly once, a delete as     *)
 (* many times as the count it returned; no two records share a position.   *)
 (* At quiescence (`final` events) the storage equals the reference store.  *)
@@ -20,7 +27,7 @@ EXTENDS Naturals, Integers, Sequences, FiniteSets, TLC, Json, IOUtils
 
 Lines == ndJsonDeserialize(IOEnv.TRACE)
 
-VARIABLES l, recs, pend
+VARIABLES l, recs, pend, acked
 
 E == Lines[l]
 
@@ -43,13 +50,29 @@ RefRes(rs, k, kind) ==
 
 IsQuery(op) == op \in {"read", "contains"}
 
+\* first-ranked record of key k among the operations acknowledged so far (the floor of a read)
+Floor(k) == LET own == {r \in recs : r.k = k /\ r.v \in acked} IN
+            IF own = {} THEN [none |-> TRUE, ts |-> 0, b |-> 0, off |-> 0]
+            ELSE LET t == CHOOSE t \in own : \A o \in own \ {t} : Above(t, o) IN
+                 [none |-> FALSE, ts |-> t.ts, b |-> t.b, off |-> t.off]
+NoFloor == [none |-> TRUE, ts |-> 0, b |-> 0, off |-> 0]
+NotBelow(r, fl) == fl.none \/ (r.ts = fl.ts /\ r.b = fl.b /\ r.off = fl.off) \/ Above(r, fl)
+
+\* the answer of a completed query is explained by a committed record that is not below the floor
+Explained(p, rt, rn) ==
+  CASE rt = "N" -> p.floor.none
+    [] rt = "D" -> \E r \in recs : r.k = p.k /\ r.del /\ r.ts = rn /\ NotBelow(r, p.floor)
+    [] rt = "F" /\ p.op = "read" -> \E r \in recs : r.k = p.k /\ ~r.del /\ r.v = rn /\ NotBelow(r, p.floor)
+    [] rt = "F" /\ p.op = "contains" -> \E r \in recs : r.k = p.k /\ ~r.del /\ r.ts = rn /\ NotBelow(r, p.floor)
+    [] OTHER -> FALSE
+
 Consume ==
-  CASE E.ev = "reset" -> recs' = {} /\ pend' = [x \in {} |-> 0]
+  CASE E.ev = "reset" -> recs' = {} /\ pend' = [x \in {} |-> 0] /\ acked' = {}
     [] E.ev = "inv" ->
          /\ E.opid \notin DOMAIN pend
          /\ pend' = pend @@ (E.opid :> [op |-> E.op, k |-> E.k, ts |-> E.ts, commits |-> 0,
-                                        cand |-> IF IsQuery(E.op) THEN {RefRes(recs, E.k, E.op)} ELSE {}])
-         /\ UNCHANGED recs
+                                        floor |-> IF IsQuery(E.op) THEN Floor(E.k) ELSE NoFloor])
+         /\ UNCHANGED <<recs, acked>>
     [] E.ev = "commit" ->
          \* belongs to a pending mutation of the same key / timestamp / kind, at a fresh position
          /\ E.opid \in DOMAIN pend
@@ -58,29 +81,27 @@ Consume ==
          /\ ~\E r \in recs : r.b = E.b /\ r.off = E.off
          /\ LET nr == recs \cup {[k |-> E.k, ts |-> E.ts, del |-> E.del = 1, v |-> E.opid, b |-> E.b, off |-> E.off]} IN
             /\ recs' = nr
-            /\ pend' = [o \in DOMAIN pend |->
-                          IF o = E.opid THEN [pend[o] EXCEPT !.commits = @ + 1]
-                          ELSE IF IsQuery(pend[o].op) /\ pend[o].k = E.k
-                          THEN [pend[o] EXCEPT !.cand = @ \cup {RefRes(nr, E.k, pend[o].op)}]
-                          ELSE pend[o]]
+            /\ pend' = [pend EXCEPT ![E.opid].commits = @ + 1]
+            /\ UNCHANGED acked
     [] E.ev = "resp" ->
          /\ E.opid \in DOMAIN pend
          /\ LET p == pend[E.opid] IN
-            CASE IsQuery(p.op) -> Res(E.rt, E.rn) \in p.cand
+            CASE IsQuery(p.op) -> Explained(p, E.rt, E.rn)
               [] p.op = "write" -> (E.rt = "ok" /\ p.commits = 1) \/ (E.rt = "err" /\ p.commits = 0)
               [] p.op = "delete" -> (E.rt = "cnt" /\ p.commits = E.rn) \/ (E.rt = "err")
               [] OTHER -> FALSE
          /\ pend' = [o \in DOMAIN pend \ {E.opid} |-> pend[o]]
+         /\ acked' = acked \cup {E.opid}
          /\ UNCHANGED recs
     [] E.ev = "final" ->   \* quiescence: nothing pending, the storage answers like the reference store
          /\ DOMAIN pend = {}
          /\ Res(E.rt, E.rn) = RefRes(recs, E.k, E.op)
-         /\ UNCHANGED <<recs, pend>>
-    [] OTHER -> UNCHANGED <<recs, pend>>
+         /\ UNCHANGED <<recs, pend, acked>>
+    [] OTHER -> UNCHANGED <<recs, pend, acked>>
 
-TraceInit == l = 1 /\ recs = {} /\ pend = [x \in {} |-> 0]
+TraceInit == l = 1 /\ recs = {} /\ pend = [x \in {} |-> 0] /\ acked = {}
 TraceNext == l <= Len(Lines) /\ l' = l + 1 /\ Consume
-TraceSpec == TraceInit /\ [][TraceNext]_<<l, recs, pend>>
+TraceSpec == TraceInit /\ [][TraceNext]_<<l, recs, pend, acked>>
 
 TraceAccepted ==
   LET d == TLCGet("stats").diameter IN
